@@ -46,6 +46,9 @@ STMT_WRAPS = ["if True:\n    BODY", "if False:\n    BODY", "while False:\n    BO
               "try:\n    BODY\nfinally:\n    pass", "if qq_undefined:\n    BODY"]
 
 STMT_SNIPPETS = [
+    "p_ = P(1, True)\na_, *p_.a = array(1, 2, 3)",
+    "xs_ = array(array(1), array(2))\na_, *xs_[0] = array(1, 2)",
+    "a_, *(b_, c_) = array(1, 2, 3)",
     "if False:\n    dd_ = undefined_in_dead_code",
     "if False:\n    dd_ = 1\n    ee_ = dd_ + undefined_dead2",
     "if True:\n    pass\nelse:\n    dd_ = undefined_dead3",
@@ -204,7 +207,7 @@ def apply_one(draw, tree):
         "annotation", "wrap_expr", "wrap_expr", "wrap_expr", "wrap_stmt", "drop_stmt", "dup_stmt", "rename", "rename", "call_arity", "insert_stmt",
         "insert_stmt", "insert_stmt", "replace_expr", "replace_expr", "replace_expr", "wrong_return", "unreachable",
         "swap_stmts", "const", "cond_nonbool", "binop_operand", "shadow_param", "compare_op", "sig_arity",
-        "unpack_mismatch", "early_return", "struct_field", "call_to_method"]))
+        "unpack_mismatch", "early_return", "struct_field", "call_to_method", "body_docstring"]))
     nodes = [n for n in ast.walk(fn)]
 
     def pick(xs):
@@ -280,6 +283,11 @@ def apply_one(draw, tree):
             return "none"
         b[i:i + 1] = new
         return kind + ":" + w.split("\n")[0]
+    if kind == "body_docstring":
+        # the whole body becomes a docstring (optionally followed by pass / ... / a bare constant)
+        tail = draw(st.sampled_from(["", "pass", "...", "1", "return"]))
+        fn.body = [ast.Expr(ast.Constant("only a docstring"))] + (_parse_stmts(tail) if tail else [])
+        return kind
     if kind == "rename":
         names = [n for n in nodes if isinstance(n, ast.Name) and isinstance(n.ctx, ast.Load)]
         n = pick(names)
